@@ -9,6 +9,11 @@ __all__ = ['Concept',
 from . import algorithms
 
 
+def _member(lattice, index):
+    """Return the unpickled concept as member of its unpickled lattice."""
+    return lattice._concepts[index]
+
+
 class Pair:
     """Formal concept as pair of extent and intent."""
 
@@ -28,6 +33,10 @@ class Pair:
         self.upper_neighbors = upper  #: The directly implied concepts.
         self.lower_neighbors = lower  #: The directly subsumed concepts.
  
+    def __reduce__(self):
+        """Pickle concept as its lattice and position therein."""
+        return _member, (self.lattice, self.index)
+
     def _eq(self, other):
         if not isinstance(other, Concept):
             return NotImplemented
